@@ -37,7 +37,34 @@ func c06Operands() []c06Operand {
 		{"function", "T", "Patient.active.first()"}, {"function", "F", "Patient.active.not()"}, {"function", "E", "Patient.name.given.skip(5)"},
 		{"function", "NB", "'abc'.length()"}, {"function", "M", "Patient.name.given.tail()"}, {"function", "T", "Patient.name.exists()"},
 		{"function", "F", "Patient.name.empty()"}, {"function", "M", "Patient.communication.preferred.take(2)"},
+		// every Boolean-valued function and operator, with matching / non-matching arguments that are shorter than, as long as
+		// and longer than the input
+		{"function", "T", "'Chu'.startsWith('Ch')"}, {"function", "F", "'Chu'.startsWith('Xy')"}, {"function", "F", "'Chu'.startsWith('Cha')"}, {"function", "F", "'Chu'.startsWith('Chuang')"}, {"function", "T", "'Chu'.startsWith('')"},
+		{"function", "T", "'Chu'.endsWith('hu')"}, {"function", "F", "'Chu'.endsWith('xu')"}, {"function", "F", "'Chu'.endsWith('aChu')"},
+		{"function", "T", "'Chu'.contains('h')"}, {"function", "F", "'Chu'.contains('z')"}, {"function", "F", "'Chu'.contains('Chuang')"}, {"function", "F", "%context.name[0].family.contains('Doe Senior')"},
+		{"function", "T", "'Chu'.matches('^C')"}, {"function", "F", "'Chu'.matches('^hu..')"},
+		{"function", "T", "%vm.exists($this = 2)"}, {"function", "F", "%vm.exists($this = 3)"}, {"function", "T", "%vm.all($this > 0)"}, {"function", "F", "%vm.all($this > 1)"},
+		{"function", "T", "%vmb.allTrue()"}, {"function", "F", "Patient.communication.preferred.allTrue()"}, {"function", "T", "Patient.communication.preferred.anyTrue()"}, {"function", "F", "Patient.active.anyFalse()"},
+		{"function", "T", "Patient.deceased.allFalse()"}, {"function", "T", "%vm.isDistinct()"}, {"function", "F", "%vmb.isDistinct()"},
+		
+		{"function", "T", "'1'.convertsToInteger()"}, {"function", "F", "'x'.convertsToInteger()"},
+		{"function", "T", "'true'.toBoolean()"}, {"function", "F", "0.toBoolean()"}, {"function", "E", "'maybe'.toBoolean()"},
+		 {"computed", "F", "('a' > 'b')"}, {"computed", "T", "('a' <= 'b')"}, {"computed", "E", "(@2020 < @2020-01)"},
+		{"computed", "T", "(1 is Integer)"}, {"computed", "F", "(1 is String)"}, {"computed", "T", "('a' != 'b')"}, {"computed", "F", "(1.0 != 1)"}, {"computed", "T", "(%context.active is boolean)"},
 	}
+}
+
+// the collection an operand of a declared kind has to be, whatever the library makes of it
+func c06Declared(kind string) (string, bool) {
+	switch kind {
+	case "T":
+		return "[IBool true]", true
+	case "F":
+		return "[IBool false]", true
+	case "E":
+		return "[]", true
+	}
+	return "", false
 }
 
 func c06Env() []fhirpath.EvaluateOption {
@@ -104,6 +131,12 @@ func runC06(cfg config) {
 			must(fmt.Errorf("C06 operand %q does not evaluate: %s", o.expr, res))
 		}
 		opColl[o.expr] = c06Coll(coll)
+		// a form declared true / false / empty enters the cases as that (the model then predicts what a genuine Boolean gives);
+		// what the library returned for the operand alone is checked as a case of its own
+		if want, ok := c06Declared(o.kind); ok {
+			sink.add(fmt.Sprintf("COperand %s, %s", want, res), o.expr+" => "+fmt.Sprint(coll), "operand", "operand/"+o.src+":"+o.kind+":"+o.expr)
+			opColl[o.expr] = want
+		}
 	}
 	binops := []struct{ kw, coq string }{{"and", "OpAnd"}, {"or", "OpOr"}, {"xor", "OpXor"}, {"implies", "OpImplies"}}
 	for _, b := range binops {
